@@ -76,7 +76,7 @@ Section Obj.
 
   Variable P : ustring -> bool.
   Hypothesis Hpad : vr_year_pad vr = true.
-  Hypothesis Hrc : rc_idem rc P.
+  Hypothesis Hrc : rc_idem rc ro P.
 
   Notation CK := (clean_kind vr w rc rp ro).
   Notation CP := (check_property vr ev w rc rp ro).
